@@ -288,6 +288,12 @@ def job_adjoint_matrix(E, rep, tier):
             want = 'adjoint_reversible_heun' if fm == 'reversible_heun' else (('milstein' if noise == 'diagonal' else 'euler') if sde_type == 'ito' else 'midpoint')
             rep.add(f'C19/adjoint-default[{sde_type},{noise},method={fm}]', 'post', 'discharged' if got == want else 'refuted', 'pyvc-exec',
                     model=None if got == want else {'got': got, 'want': want})
+            # contract of _select_default_adjoint_method: an explicit choice is returned unchanged for every forward method, so the
+            # solver constructed when the backward pass starts is the one the caller named (and is refused there if unsupported)
+            for adjoint_method in METHODS + ['rk4']:
+                got = E.call(sel, [S.sde, fm, adjoint_method], {}, S.cx, 0)
+                rep.add(f'C19/adjoint-explicit-choice-is-used[{sde_type},{noise},method={fm},adjoint_method={adjoint_method}]', 'post',
+                        'discharged' if got == adjoint_method else 'refuted', 'pyvc-exec', model=None if got == adjoint_method else {'got': got, 'want': adjoint_method})
             for adjoint_method in METHODS:
                 for gf in ((False, True) if adjoint_method == 'milstein' else (False,)):
                     S = AC.setup(E, noise, sde_type, B, d, m, eta_limit=3)
@@ -349,6 +355,32 @@ def canaries(tier):
          'patches': [(S, "                NOISE_TYPES.general: METHODS.euler\n", "                NOISE_TYPES.general: METHODS.srk\n")]},
         {'name': 'adjoint_reversible_heun-accepted-as-forward-method', 'job': 'forward-matrix',
          'patches': [('torchsde._core.methods.reversible_heun', "        if not isinstance(sde, adjoint_sde.AdjointSDE):\n            raise ValueError(", "        if False:\n            raise ValueError(")]},
+        {'name': 'explicit-adjoint-method-overridden-for-reversible-heun', 'job': 'adjoint-matrix',
+         'patches': [('torchsde._core.adjoint', "    if adjoint_method is not None:\n        return adjoint_method\n    elif method == METHODS.reversible_heun:\n",
+                      "    if method == METHODS.reversible_heun:\n        return METHODS.adjoint_reversible_heun\n    elif adjoint_method is not None:\n        return adjoint_method\n    elif False:\n")]},
         {'name': 'adjoint-default-ito-diagonal-is-euler', 'job': 'adjoint-matrix',
          'patches': [('torchsde._core.adjoint', "                NOISE_TYPES.diagonal: METHODS.milstein,\n", "                NOISE_TYPES.diagonal: METHODS.euler,\n")]},
     ]
+
+
+def native_replay(ob):
+    """Replay the failing cell natively (cell parsed from the obligation name)."""
+    import re
+    from props.base import run_native
+    name = ob['name']
+    m = re.match(r'C19/forward\[(\w+),(\w+),method=(\w+),bm=([\w-]+),adaptive=(\w+),logqp=(\w+)\]', name)
+    if m:
+        st, noise, method, bm, ad, lq = m.groups()
+        eff_m = method if method != 'None' else default_method(st, noise)
+        eff_l = bm if bm != 'None' else default_levy(eff_m)
+        return run_native('c19', dict(sde_type=st, noise=noise, method=method, bm=bm, adaptive=ad == 'True', logqp=lq == 'True',
+                                      documented=documented(st, noise, eff_m, eff_l)))
+    m = re.match(r'C19/adjoint-explicit-choice-is-used\[(\w+),(\w+),method=(\w+),adjoint_method=(\w+)\]', name)
+    if m:
+        st, noise, fm, am = m.groups()
+        return run_native('c19adj', dict(sde_type=st, noise=noise, method=fm, adjoint_method=am, admissible=adjoint_documented(st, noise, am, fm)))
+    m = re.match(r'C19/adjoint\[(\w+),(\w+),forward=(\w+),adjoint_method=(\w+?)(,grad_free)?\]', name)
+    if m and not m.group(5):
+        st, noise, fm, am = m.groups()[:4]
+        return run_native('c19adj', dict(sde_type=st, noise=noise, method=fm, adjoint_method=am, admissible=adjoint_documented(st, noise, am, fm)))
+    return None
